@@ -1375,8 +1375,10 @@ def run_c18(ctx):
                 _R("Imply", x_, _R("Any", p_, r_), id="R1"), _R("Imply", x_, _R("Any", p_, r_), id="R9"), _R("All", _R("Any", p_, r_), x_, id="R0"),
                 # a whole configurator (a package of rules with its own id) added as ONE rule
                 _cc("Cfg", _R("Any", p_, q_, id="K1"), _R("Any", q_, r_, id="K2"), id="pack"), _cc("Cfg", _R("Any", p_, x_, id="K3"), LEAF("y"))]
-    st2 = api_histories(ctx, "API_add_coincide", [(CfgR, CfgX)], ["add", "add_q", "default_prios", "select"], 2, co_rules)
-    c2 = [c for c in history_cases(ctx, st2, [CfgR, CfgX]) if any(x["op"] in ("add", "add_q") for x in c["calls"])]
+    # (second pair: sequences of additions that start from a configurator without any rule)
+    CfgE, CfgE2 = _cc("Cfg", id="cfge"), _cc("Cfg")
+    st2 = api_histories(ctx, "API_add_coincide", [(CfgR, CfgX), (CfgE, CfgE2)], ["add", "add_q", "default_prios", "select"], 2, co_rules)
+    c2 = [c for c in history_cases(ctx, st2, [CfgR, CfgX, CfgE, CfgE2]) if any(x["op"] in ("add", "add_q") for x in c["calls"])]
     ctx.region("added_rule_shares_a_tagged_sub_proposition", len(c2))
     run_histories(ctx, cases + c2)
 
